@@ -10,7 +10,7 @@ from .spec import Contract
 
 class CallMixin:
     SPEC_FORMS = {"old", "forall", "exists", "implies", "ite", "fresh", "at_loop", "allocated", "iff",
-                  "typeis", "let", "store", "select", "empty", "setadd", "setdel", "dom", "wrap_int", "cast", "pos", "cut", "dtype", "classid"}
+                  "typeis", "let", "store", "select", "empty", "setadd", "setdel", "dom", "wrap_int", "cast", "pos", "cut", "dtype", "classid", "store_all_zero"}
 
     def ev_Call(self, e, st):
         f = e.func
@@ -222,7 +222,6 @@ class CallMixin:
                     for kname, kval in g2.frames[-1].items():
                         if kname not in env:
                             env[kname] = kval
-                    break
             finally:
                 self.discovery = saved_disc
         # requires
@@ -431,6 +430,8 @@ class CallMixin:
             x = self.sv(a[1], st)
             kpart = a[2].value if len(a) > 2 else 0
             return Val(INT, parts[kpart][1](self.coerce(x, L.t[1]).z))
+        if name == "store_all_zero":
+            return Val(("map", INT, INT), z3.K(z3.IntSort(), z3.IntVal(0)))
         if name == "dtype":
             r = self.sv(a[0], st)
             return Val(INT, self.dtype_fn(r.z))
